@@ -225,10 +225,14 @@ def c_sjoin_dask(rng):
             if e:
                 pairs.append((li, ri))
     left = sp.GeoDataFrame({'geometry': pts.arr, 'a': list(range(nl))})
-    right = sp.GeoDataFrame({'geometry': rs.arr, 'b': list(range(len(rs.view)))})
+    nr = len(rs.view)
+    rkind_idx = rng.choice(['default', 'permuted-ints', 'strings', 'offset-ints'])
+    ridx = {'default': list(range(nr)), 'permuted-ints': rng.sample(range(nr), nr), 'strings': [f's{j}' for j in range(nr)],
+            'offset-ints': [7 + 2 * j for j in range(nr)]}[rkind_idx]
+    right = sp.GeoDataFrame({'geometry': rs.arr, 'b': list(range(nr))}, index=ridx)
     how = rng.choice(['inner', 'left'])
     npart = rng.choice([1, 2, 3])
-    recipe = {'left': pts.recipe, 'right': rs.recipe, 'how': how, 'npartitions': npart}
+    recipe = {'left': pts.recipe, 'right': rs.recipe, 'how': how, 'npartitions': npart, 'right_index': ridx}
     tag = f'{how}/{rkind}/{region_of(pts.view)}'
     try:
         with dask.config.set(scheduler='synchronous'), warnings.catch_warnings():
@@ -245,6 +249,10 @@ def c_sjoin_dask(rng):
     exp = sorted(exp, key=lambda t: (t[0], -1 if t[1] is None else t[1]))
     if got != exp:
         return [V(f'sjoin.dask.pairs/{tag}', f'got {got} expected {exp}', recipe)]
+    if 'index_right' in j.columns:
+        ok = all((pd.isna(b) and pd.isna(ir)) or ((not pd.isna(b)) and ir == ridx[int(b)]) for b, ir in zip(j['b'], j['index_right']))
+        if not ok:
+            return [V(f'sjoin.dask.index_right/{tag}', f'{list(zip(j["b"], j["index_right"]))} labels {ridx}', recipe)]
     return []
 
 
